@@ -28,6 +28,42 @@ CKIND = ["def", "functools.partial of a def", "instance with __call__", "lambda"
 K_DEF, K_PARTIAL, K_OBJ, K_LAMBDA, K_METHOD = range(5)
 
 
+PROTO = ["LanguageServerProtocol", "trivial subclass", "sub-subclass", "subclass adding the built-in u/x",
+         "subclass overriding an inherited built-in ($/setTrace)"]
+EXTRA = {3: ["x"]}             # built-ins the protocol class adds (names after "u/")
+
+
+def protocol_class(kind):
+    """The protocol class of the case's server (protocol_cls=): what LSPMeta does for subclasses is
+    observed through dispatch only."""
+    from lsprotocol import types
+    from pygls.protocol import LanguageServerProtocol
+    from pygls.protocol.language_server import lsp_method
+    if not kind:
+        return LanguageServerProtocol
+
+    class Sub(LanguageServerProtocol):
+        pass
+    if kind == 1:
+        return Sub
+    if kind == 2:
+        class SubSub(Sub):
+            pass
+        return SubSub
+    if kind == 3:
+        class Adds(LanguageServerProtocol):
+            @lsp_method("u/x")
+            def lsp_custom_x(self, params):
+                return None
+        return Adds
+
+    class Overrides(LanguageServerProtocol):
+        @lsp_method(types.SET_TRACE)
+        def lsp_set_trace(self, params):
+            self.trace = params.value
+    return Overrides
+
+
 def reg_fields(r):
     r = list(r) + [0, 0][:max(0, 9 - len(r))]
     return r[:9]
@@ -189,7 +225,8 @@ class Sched14(sched.Sched):
         self.log14 = []
         self.seen14 = [0, 0]
         self.nrecv = 0
-        super().__init__({"writer": "blocking", "hook": "default", "wfail": None})
+        super().__init__({"writer": "blocking", "hook": "default", "wfail": None},
+                         server_kwargs={"protocol_cls": protocol_class(case.get("proto", 0))})
         fm = self.protocol.fm
         for name in list(fm.builtin_features):
             fm.add_builtin_feature(name, self._wrap_builtin(name, fm.builtin_features[name]))
@@ -355,7 +392,7 @@ class Real14(Sched14):
         self.tls = threading.local()
         self.cur = None
         self.loop = asyncio.new_event_loop()
-        self.server = LanguageServer("c14-real", "v1")
+        self.server = LanguageServer("c14-real", "v1", protocol_cls=protocol_class(case.get("proto", 0)))
         self.protocol = self.server.protocol
         self._register({})
         S = self
@@ -516,6 +553,10 @@ def enc_cfg(case):
     toks += [len(rs)] + rs
     tk = case.get("tokens", [])
     toks += [len(tk)] + tk
+    ex = EXTRA.get(case.get("proto", 0), [])
+    toks += [len(ex)]
+    for x in ex:
+        toks += enc_str(x)
     return toks
 
 
@@ -706,14 +747,14 @@ def mk_msg(c, ids, rng=None, **kw):
     elif c == "trace":
         m.update(v=pick([2, 1, 0]))
     elif c == "exec":
-        m.update(cmd=pick(["cmd.a", "cmd.a", "cmd.b", "cmd.none"]), a=pick([9, 3]))
+        m.update(cmd=pick(["cmd.a", "cmd.a", "cmd.b", "cmd.none", "u/a", "textDocument/didOpen"]), a=pick([9, 3]))
     elif c == "cancel":
         m.update(tok=pick([1, 2, 3]))
     elif c == "other":
         req = pick([True, False])
         if req:
             ids[0] += 1
-        m.update(name=pick(["u/a", "u/a", "u/b", "u/c"]), v=pick([4, 8]), id=ids[0] if req else None)
+        m.update(name=pick(["u/a", "u/a", "u/b", "u/c", "u/x"]), v=pick([4, 8]), id=ids[0] if req else None)
     m.update(kw)
     return m
 
@@ -798,6 +839,58 @@ def sig_shape_cases():
     return out
 
 
+def pair_cases():
+    """A FEATURE and a COMMAND under the same name (the code keeps two dicts): every combination of
+    {sync, async} x {no thread, above, below} for the pair, both orders of definition, under a user
+    method name and under a built-in's name; both are reached (message + executeCommand)."""
+    out = []
+    shapes = [(0, T_NONE), (0, T_ABOVE), (0, T_BELOW), (1, T_NONE), (1, T_ABOVE)]
+    n = 0
+    for name, via in (("u/a", "other"), ("textDocument/didOpen", "open")):
+        for fa, ft in shapes:
+            for ca, ct in shapes:
+                for swap in (0, 1):
+                    n += 1
+                    f = [0, name, fa, n % 5, ft, 1, 0]
+                    c = [1, name, ca, (n // 5) % 5, ct, 2, 0]
+                    ids = [0]
+                    evs = [["recv", mk_msg("init", ids)]]
+                    if via == "other":
+                        evs.append(["recv", mk_msg("other", ids, name=name, id=(7 if n % 2 else None))])
+                    else:
+                        evs.append(["recv", mk_msg("open", ids)])
+                    evs.append(["recv", mk_msg("exec", ids, cmd=name)])
+                    out.append({"t": "pair", "regs": [c, f] if swap else [f, c], "tokens": [], "evs": evs + DRAIN})
+    return out
+
+
+def proto_cases():
+    """The protocol class as a dimension: default class, trivial subclass, sub-subclass, a subclass that
+    adds its own @lsp_method built-in, one that overrides an inherited built-in - x every built-in method
+    (and the added one) x user handler kind {none, sync, async, thread}: once each, built-in first."""
+    out = []
+    kinds = [None, (0, T_NONE), (1, T_NONE), (0, T_ABOVE)]
+    for proto in range(1, 5):
+        for bi, b in enumerate(BKEYS + ["x-n", "x-r"]):
+            for ki, kd in enumerate(kinds):
+                name = BUILTIN[b] if b in BUILTIN else "u/x"
+                regs = [] if kd is None else [[0, name, kd[0], (bi + ki) % 5, kd[1], 1, (bi + ki) % 3 if ki == 1 else 0]]
+                ids = [0]
+                evs = [["recv", mk_msg("init", ids)]]
+                if b in ("change", "close"):
+                    evs.append(["recv", mk_msg("open", ids)])
+                if b == "exec":
+                    regs.append([1, "cmd.a", 0, 0, T_NONE, 2, 0])
+                if b == "x-n":
+                    evs.append(["recv", mk_msg("other", ids, name="u/x", id=None)])
+                elif b == "x-r":
+                    evs.append(["recv", mk_msg("other", ids, name="u/x", id=9)])
+                elif b != "init":
+                    evs.append(["recv", mk_msg(b, ids, **({"cmd": "cmd.a"} if b == "exec" else {}))])
+                out.append({"t": "proto", "proto": proto, "regs": regs, "tokens": [1, 2], "evs": evs + DRAIN[:4]})
+    return out
+
+
 def sig_table():
     """(par | None, rest, ck): every first parameter incl. none at all x rest x every kind of callable
     incl. bound methods (which the decorators cannot register: setattr fails) - for the function-level
@@ -848,7 +941,7 @@ def matrix_cases():
     return out
 
 
-NAMES_F = [BUILTIN[b] for b in BKEYS] + ["u/a", "u/a", "u/b", "textDocument/didOpen", "textDocument/didChange",
+NAMES_F = [BUILTIN[b] for b in BKEYS] + ["u/a", "u/a", "u/b", "u/x", "textDocument/didOpen", "textDocument/didChange",
                                           "workspace/executeCommand", "initialize", "shutdown"]
 
 
@@ -856,11 +949,11 @@ def scenario(rng):
     regs = []
     for _ in range(rng.choice([0, 1, 2, 3, 4, 5, 6])):
         if rng.random() < 0.3:
-            kind, name = 1, rng.choice(["cmd.a", "cmd.a", "cmd.b"])
+            kind, name = 1, rng.choice(["cmd.a", "cmd.a", "cmd.b", "u/a", "textDocument/didOpen"])
         else:
-            kind, name = 0, rng.choice(NAMES_F)
-        if rng.random() < 0.03:
-            kind = 1 - kind
+            kind, name = 0, rng.choice(NAMES_F + ["cmd.a"])
+        if regs and rng.random() < 0.15:        # the two name spaces are separate: share a name across them
+            kind, name = 1 - regs[-1][0], regs[-1][1]
         asy = int(rng.random() < 0.35)
         thr = rng.choice([T_NONE, T_NONE, T_ABOVE, T_BELOW]) if (not asy or rng.random() < 0.1) else T_NONE
         row = [kind, name, asy, rng.randrange(5), thr, len(regs) + 1, rng.choice([0, 0, 0, 1, 2])]
@@ -910,7 +1003,10 @@ def scenario(rng):
     if len(reqs) >= 2 and rng.random() < 0.05:          # a client that reuses a request id
         a, b = rng.sample(reqs, 2)
         b["id"] = a["id"]
-    return {"t": "seq", "regs": regs, "tokens": [1, 2]}, [["recv", m] for m in msgs]
+    case = {"t": "seq", "regs": regs, "tokens": [1, 2]}
+    if rng.random() < 0.4:
+        case["proto"] = rng.randrange(1, 5)
+    return case, [["recv", m] for m in msgs]
 
 
 def query_enabled(items):
@@ -1071,7 +1167,8 @@ class C14(core.Property):
                    "user_failure_keeps_builtin", "builtin_reply_kept", "no_handler_nothing", "recv_gated",
                    "literal_inside_guard", "delivery_exact", "shapes_in_context", "see_faithful", "inject_decision",
                    "inject_iff_asked_g", "inject_only_if_asked_g", "inject_refuted_unresolvable_hints",
-                   "shapes_in_context_g", "C14_refuted_unresolvable_hints", "C14_shapes", "C14_partial", "C14_refuted_builtin_raises", "C14_refuted",
+                   "shapes_in_context_g", "thread_keeps", "isb_known", "shared_name_pairs", "custom_builtin_once",
+                   "C14_refuted_unresolvable_hints", "C14_shapes", "C14_partial", "C14_refuted_builtin_raises", "C14_refuted",
                    "C14_nonvacuous", "C14_reference_agrees"]
     coq_targets = ["Props/C14.vo", "Extract/ExtractC14.vo"]
     rule = ("non-trivial = the registration shape has a thread decorator or a server parameter, or the message's "
@@ -1099,6 +1196,8 @@ class C14(core.Property):
         cases.append(SANITY)
         cases.extend(shape_cases())
         cases.extend(sig_shape_cases())
+        cases.extend(pair_cases())
+        cases.extend(proto_cases())
         cases.extend(matrix_cases())
         n = chk.n(260, 6000)
         cases.extend(interleave(chk.rng, [scenario(chk.rng) for _ in range(n)]))
@@ -1166,6 +1265,8 @@ class C14(core.Property):
             yield dict(case, evs=evs[:a] + evs[a + 1:])
         for a in range(len(regs) - 1, -1, -1):
             yield dict(case, regs=regs[:a] + regs[a + 1:])
+        if case.get("proto") in (2, 4):
+            yield dict(case, proto=1)
         for a, r in enumerate(regs):
             if r[6]:
                 yield dict(case, regs=regs[:a] + [r[:6] + [0] + r[7:]] + regs[a + 1:])
@@ -1175,7 +1276,7 @@ class C14(core.Property):
     def search(self, chk):
         """The tie or a proof broke: look for an input on which the property itself fails (judged by
         the reference S alone, inside the guard)."""
-        cases = shape_cases() + sig_shape_cases() + matrix_cases() + interleave(chk.rng, [scenario(chk.rng) for _ in range(300)])
+        cases = shape_cases() + sig_shape_cases() + pair_cases() + proto_cases() + matrix_cases() + interleave(chk.rng, [scenario(chk.rng) for _ in range(300)])
         out = []
         for r in core.evaluate(self, chk, cases):
             if r["guard"] and r["S"] is not None and not self.satisfies(r["case"], r["impl"], r["S"]):
@@ -1191,6 +1292,7 @@ class C14(core.Property):
             d[k] = d.get(k, 0) + 1
         for c in cases:
             add("kind/" + c.get("t", "corpus"))
+            add("protocol_cls/" + PROTO[c.get("proto", 0)])
             add("len/%d" % (10 * (len(c["evs"]) // 10)))
             feats = {}
             for r in c["regs"]:
